@@ -65,94 +65,171 @@ func constString(v ssa.Value) (string, bool) {
 }
 
 // constReach returns the set of tag values under which each block is reachable.
-// isTag decides whether an SSA value denotes the tag.
+// isTag decides whether an SSA value denotes the tag. The walk is done per tag value and carries the operand each phi
+// received on the way, so that a dispatch through data (`kind, ok := lookup(tag); if ok { … }` once the lookup is inlined:
+// ok is a phi of constants chosen by the tag) is followed like a dispatch through control.
 func constReach(fn *ssa.Function, isTag func(ssa.Value) bool, domain []string) map[*ssa.BasicBlock]valSet {
-	full := setOf(append(append([]string(nil), domain...), otherVal)...)
 	state := map[*ssa.BasicBlock]valSet{}
 	if len(fn.Blocks) == 0 {
 		return state
 	}
-	state[fn.Blocks[0]] = full.clone()
-	work := []*ssa.BasicBlock{fn.Blocks[0]}
-	push := func(b *ssa.BasicBlock, s valSet) {
-		old := state[b]
-		if old == nil {
-			state[b] = s.clone()
-			work = append(work, b)
-			return
-		}
-		changed := false
-		for k := range s {
-			if !old[k] {
-				old[k] = true
-				changed = true
+	for _, v := range append(append([]string(nil), domain...), otherVal) {
+		for b := range constReachFor(fn, isTag, domain, v) {
+			if state[b] == nil {
+				state[b] = valSet{}
 			}
+			state[b][v] = true
 		}
-		if changed {
-			work = append(work, b)
+	}
+	return state
+}
+
+// unknownVal marks a phi whose operand differs between the ways a block is reached under one tag value.
+var unknownVal = ssa.Value(&ssa.Const{})
+
+type phiEnv map[*ssa.Phi]ssa.Value
+
+// constEnvAt: under tag value v, the operand every phi of fn's blocks certainly carries when block b is entered.
+func constReachEnv(fn *ssa.Function, isTag func(ssa.Value) bool, domain []string, v string) (map[*ssa.BasicBlock]bool, map[*ssa.BasicBlock]phiEnv) {
+	inDomain := map[string]bool{}
+	for _, d := range domain {
+		inDomain[d] = true
+	}
+	reached := map[*ssa.BasicBlock]bool{}
+	envIn := map[*ssa.BasicBlock]phiEnv{}
+	entry := fn.Blocks[0]
+	envIn[entry] = phiEnv{}
+	reached[entry] = true
+	work := []*ssa.BasicBlock{entry}
+	resolve := func(x ssa.Value, env phiEnv) ssa.Value {
+		for i := 0; i < 8; i++ {
+			ph, ok := x.(*ssa.Phi)
+			if !ok {
+				return x
+			}
+			r, ok := env[ph]
+			if !ok || r == unknownVal {
+				return x
+			}
+			x = r
 		}
+		return x
 	}
 	for len(work) > 0 {
 		b := work[len(work)-1]
 		work = work[:len(work)-1]
-		s := state[b]
+		env := envIn[b]
 		if len(b.Instrs) == 0 {
 			continue
 		}
-		iff, ok := b.Instrs[len(b.Instrs)-1].(*ssa.If)
-		if !ok {
-			for _, succ := range b.Succs {
-				push(succ, s)
+		takeT, takeF := true, true
+		if iff, ok := b.Instrs[len(b.Instrs)-1].(*ssa.If); ok {
+			cond, neg := stripNot(iff.Cond)
+			cond = resolve(cond, env)
+			if c2, n2 := stripNot(cond); n2 {
+				cond, neg = resolve(c2, env), !neg
 			}
-			continue
-		}
-		cond, neg := stripNot(iff.Cond)
-		refined := false
-		if bo, ok := cond.(*ssa.BinOp); ok && (bo.Op == token.EQL || bo.Op == token.NEQ) {
-			var k string
-			var has bool
-			if isTag(bo.X) {
-				k, has = constString(bo.Y)
-			} else if isTag(bo.Y) {
-				k, has = constString(bo.X)
-			}
-			if has {
-				eq := setOf()
-				ne := s.clone()
-				inDomain := false
-				for _, d := range domain {
-					if d == k {
-						inDomain = true
+			decided, val := false, false
+			switch x := cond.(type) {
+			case *ssa.Const:
+				if x.Value != nil && x.Value.Kind() == constant.Bool {
+					decided, val = true, constant.BoolVal(x.Value)
+				}
+			case *ssa.BinOp:
+				if x.Op == token.EQL || x.Op == token.NEQ {
+					var k string
+					var has bool
+					if isTag(x.X) {
+						k, has = constString(resolve(x.Y, env))
+					} else if isTag(x.Y) {
+						k, has = constString(resolve(x.X, env))
+					}
+					if has {
+						switch {
+						case v != otherVal:
+							decided, val = true, (v == k) == (x.Op == token.EQL)
+						case inDomain[k]:
+							decided, val = true, x.Op == token.NEQ
+						}
 					}
 				}
-				if s[k] {
-					eq[k] = true
+			}
+			if decided {
+				if val != neg {
+					takeF = false
+				} else {
+					takeT = false
 				}
-				delete(ne, k)
-				if !inDomain && s[otherVal] {
-					// comparing against a constant outside the domain: OTHER may equal it
-					eq[otherVal] = true
-				}
-				t, f := eq, ne
-				if (bo.Op == token.NEQ) != neg {
-					t, f = ne, eq
-				}
-				if len(t) > 0 {
-					push(b.Succs[0], t)
-				}
-				if len(f) > 0 {
-					push(b.Succs[1], f)
-				}
-				refined = true
 			}
 		}
-		if !refined {
-			for _, succ := range b.Succs {
-				push(succ, s)
+		for si, succ := range b.Succs {
+			if _, isIf := b.Instrs[len(b.Instrs)-1].(*ssa.If); isIf {
+				if (si == 0 && !takeT) || (si == 1 && !takeF) {
+					continue
+				}
+			}
+			ne := phiEnv{}
+			for k, x := range env {
+				ne[k] = x
+			}
+			for _, in := range succ.Instrs {
+				ph, ok := in.(*ssa.Phi)
+				if !ok {
+					break
+				}
+				for pi, p := range succ.Preds {
+					if p == b {
+						ne[ph] = resolve(ph.Edges[pi], env)
+						break
+					}
+				}
+			}
+			old, seen := envIn[succ]
+			if !seen {
+				envIn[succ] = ne
+				reached[succ] = true
+				work = append(work, succ)
+				continue
+			}
+			changed := false
+			for k, x := range old {
+				if y, ok := ne[k]; (!ok || !sameSSAVal(y, x)) && x != unknownVal {
+					old[k] = unknownVal
+					changed = true
+				}
+			}
+			for k := range ne {
+				if _, ok := old[k]; !ok {
+					old[k] = unknownVal
+					changed = true
+				}
+			}
+			if changed {
+				work = append(work, succ)
 			}
 		}
 	}
-	return state
+	return reached, envIn
+}
+
+func sameSSAVal(a, b ssa.Value) bool {
+	if a == b {
+		return true
+	}
+	ca, okA := a.(*ssa.Const)
+	cb, okB := b.(*ssa.Const)
+	if okA && okB && a != unknownVal && b != unknownVal {
+		if ca.Value == nil || cb.Value == nil {
+			return ca.Value == nil && cb.Value == nil && types.Identical(ca.Type(), cb.Type())
+		}
+		return constant.Compare(ca.Value, token.EQL, cb.Value) && types.Identical(ca.Type(), cb.Type())
+	}
+	return false
+}
+
+func constReachFor(fn *ssa.Function, isTag func(ssa.Value) bool, domain []string, v string) map[*ssa.BasicBlock]bool {
+	r, _ := constReachEnv(fn, isTag, domain, v)
+	return r
 }
 
 // declaredConsts lists the string values of the package-level constants of the named type.
